@@ -336,8 +336,10 @@ func (c *Contract) addClause(kw, text, src string) error {
 		end := strings.Index(t[1:], "\"")
 		ref := t[1 : 1+end]
 		rest := strings.TrimSpace(t[end+2:])
-		if !strings.HasPrefix(rest, ":") || !strings.HasPrefix(ref, "lean:") {
-			return fmt.Errorf("%s: axiom: want \"lean:file:theorem\": E", src)
+		// "def:<ghost function>: ..." introduces a recursive definition of a ghost function that occurs
+		// nowhere else (a conservative extension); "lean:file:theorem" is a lemma proved in Lean
+		if !strings.HasPrefix(rest, ":") || !(strings.HasPrefix(ref, "lean:") || strings.HasPrefix(ref, "def:")) {
+			return fmt.Errorf("%s: axiom: want \"lean:file:theorem\": E or \"def:ghostFn: why\": E", src)
 		}
 		text = strings.TrimSpace(rest[1:])
 		cl, err := mk("axiom", len(c.Axioms))
